@@ -8,6 +8,13 @@ COMMON_TRUSTED = [
 ]
 
 CONF = {
+    "C20": {
+        "n": {"quick": 600, "thorough": 8000},
+        "shard": 600,
+        "race": True,
+        "trusted_base": ["the hook dom.VerifDump (build tag verif): generic reflection/unsafe dump of the representation", "the Go race detector (supporting search, not proof): the harness is rebuilt with -race and run on the same cases"],
+        "assumptions": ["the theorems are about method-level read/write footprints; the Go memory model, the scheduler and the completeness of the race detector are outside the model (partial by nature)"],
+    },
     "C15": {
         "n": {"quick": 400, "thorough": 4000},
         "shard": 200,
